@@ -19,7 +19,7 @@ def csum(b):
 
 DEFAULT = {"v": 4, "ttl": 64, "tos": 0, "id": 1, "df": True, "mf": False, "evil": False, "frag": 0, "ipopts": "", "fl": 0,
            "sport": 40000, "dport": 80, "seq": 1000, "ack": 0, "flags": 2, "win": 8192, "urg": 0, "opts": "", "payload": "",
-           "src": 0x0A000001, "dst": 0x0A000002}
+           "src": 0x0A000001, "dst": 0x0A000002, "trailer": ""}      # trailer: bytes after the end of the datagram (link-layer padding)
 
 
 def full(spec):
@@ -53,12 +53,12 @@ def build(spec):
         hdr = struct.pack("!BBHHHBBH", (4 << 4) | ihl, s["tos"], total, s["id"], (fl << 13) | (s["frag"] & 0x1FFF), s["ttl"], 6, 0) + src + dst + ipopts
         c = csum(hdr)
         hdr = hdr[:10] + struct.pack("!H", c) + hdr[12:]
-        return hdr + tcp
+        return hdr + tcp + bytes.fromhex(s["trailer"])
     src = b"\x20\x01\x0d\xb8" + b"\0" * 8 + struct.pack("!I", s["src"])
     dst = b"\x20\x01\x0d\xb8" + b"\0" * 8 + struct.pack("!I", s["dst"])
     tcp = tcp_bytes(s, lambda n: src + dst + struct.pack("!IHBB", n, 0, 0, 6))
     hdr = struct.pack("!IHBB", (6 << 28) | ((s["tos"] & 0xFF) << 20) | (s["fl"] & 0xFFFFF), len(tcp), 6, s["ttl"]) + src + dst
-    return hdr + tcp
+    return hdr + tcp + bytes.fromhex(s["trailer"])
 
 
 # ---- TCP option encoders (hex strings) ----
